@@ -289,7 +289,7 @@ def sel_prefix(*prefixes):
     return f
 
 
-CHEAP_DISPATCH = re.compile(r"c07_(bin_(and|or|greater|less)_|un_(count|not|value_of_list)_|call_un_count)")
+CHEAP_DISPATCH = re.compile(r"c07_(bin_(and|or|greater|less)_[a-e]+\d_|un_(count|not|value_of_list)_|call_un_count)")
 
 
 def sel_dispatch(quick_n):
